@@ -1336,20 +1336,22 @@ class _Timeout(Exception):
 
 
 def _with_timeout(fn, seconds):
+    """run fn under a limit of `seconds` of this process's own CPU time (not wall-clock time: the verdict must not depend on how
+    busy the machine is)"""
     import signal
 
     def handler(signum, frame):
         raise _Timeout()
     try:
-        old = signal.signal(signal.SIGALRM, handler)
+        old = signal.signal(signal.SIGVTALRM, handler)
     except ValueError:          # not in the main thread
         return fn()
-    signal.setitimer(signal.ITIMER_REAL, seconds)
+    signal.setitimer(signal.ITIMER_VIRTUAL, seconds)
     try:
         return fn()
     finally:
-        signal.setitimer(signal.ITIMER_REAL, 0)
-        signal.signal(signal.SIGALRM, old)
+        signal.setitimer(signal.ITIMER_VIRTUAL, 0)
+        signal.signal(signal.SIGVTALRM, old)
 
 
 def skeleton(e, table):
